@@ -4,6 +4,7 @@ import CoercionModel.Model.Walk
 import CoercionModel.Model.Attempts
 import CoercionModel.Model.Builder
 import CoercionModel.Model.BuilderRef
+import CoercionModel.Model.FixFull
 import CoercionModel.Model.Validate
 import CoercionModel.Model.Engine
 import CoercionModel.Model.Startup
